@@ -648,13 +648,30 @@ impl<A, B> Vec2<A, B> {
             return;
         }
 
+        // Put the entries back on drop, so that they are not lost if `compare` panics
+        // (`slice::sort_by` leaves all the elements in the slice, in unspecified order).
+        struct PutBackOnDrop<'a, A, B> {
+            vec2: &'a mut Vec2<A, B>,
+            entries: Vec<(A, B)>,
+        }
+
+        impl<A, B> Drop for PutBackOnDrop<'_, A, B> {
+            fn drop(&mut self) {
+                for (a, b) in self.entries.drain(..) {
+                    self.vec2.push(a, b);
+                }
+            }
+        }
+
         // TODO: sort without allocation.
         // TODO: drain.
-        let mut entries: Vec<(A, B)> = mem::take(self).into_iter().collect();
-        entries.sort_by(|(xa, xb), (ya, yb)| compare((xa, xb), (ya, yb)));
-        for (a, b) in entries {
-            self.push(a, b);
-        }
+        let entries: Vec<(A, B)> = mem::take(self).into_iter().collect();
+        let mut work = PutBackOnDrop {
+            vec2: self,
+            entries,
+        };
+        work.entries
+            .sort_by(|(xa, xb), (ya, yb)| compare((xa, xb), (ya, yb)));
     }
 }
 
